@@ -201,11 +201,15 @@ CHECKS = {
     },
     'C17': {
         'level': 'exploration',
-        'text': 'BOUNDED stand-in on the one KyTea model shipped with the repository: every truncation inside the part the reader consumes is rejected '
-                'with an error (no panic), the complete file converts to the recorded known answer, whose structure (own-window vectors, type codes, '
-                'dictionary vectors), usability and scores (against the brute-force linear model over the decoded weights) are checked.',
+        'text': 'BOUNDED stand-in: (a) the KyTea model shipped with the repository: every truncation inside the part the reader consumes is rejected '
+                'with an error (no panic), the complete file converts to the recorded known answer, whose structure, usability and scores are checked; '
+                '(b) seeded synthetic KyTea binaries: the converted model must contain exactly the n-grams (type letters mapped to codes), bias, '
+                'windows and dictionary words of the file, dictionary weights summed over the dictionaries a word belongs to by length bucket, and '
+                'score texts as those weights dictate (brute-force linear model); sampled truncations are rejected.',
         'design_ref': 'DESIGN.md section 5.C17',
-        'note': 'Not a proof and one file only; the known answer is a regression oracle recorded from the pinned tree.',
+        'note': 'Not a proof. The shipped file has no dictionaries, so the dictionary path is exercised by 300 (3000 thorough) seeded SYNTHETIC KyTea '
+                'binaries (1-3 windows, 1-4 length buckets, 0-3 dictionaries with membership masks) written by an independent writer; their converted '
+                'content and scores are compared with what the generated file says. The known answer for the shipped file is a regression oracle.',
         'technique': 'bounded sweep of the real reader/converter on one model file with a recorded known answer (labelled stand-in, not proof)',
     },
     'C20': {
@@ -304,7 +308,7 @@ def main():
     print('MANIFEST.json written: %d checks, %d not_applicable' % (len(checks), len(na)))
 
 
-HOOK_COMMITS = []
+HOOK_COMMITS = ['8f78040 verif hook (cfg vaporetto_verif): Trainer::verif_examples exposes the decoded training examples (used by the c10 sweep only; Verus needs no hook)']
 
 if __name__ == '__main__':
     main()
